@@ -78,6 +78,8 @@ func init() {
 			{Name: "benign: cache entry point renamed, insertion in a second method", File: "route/glob_cache.go", Old: "func (c *GlobCache) Get(pattern string) (glob.Glob, error) {", New: "func (c *GlobCache) Get(pattern string) (glob.Glob, error) { return c.Compiled(pattern) }\n\nfunc (c *GlobCache) Compiled(pattern string) (glob.Glob, error) {", Expect: ""},
 			{Name: "benign: slot selection in a method with another receiver name, guard at the call site", File: "route/picker.go", Old: "\tn := atomic.AddUint64(&r.total, 1) - 1\n\treturn r.wTargets[n%uint64(len(r.wTargets))]\n}", New: "\treturn r.slot(atomic.AddUint64(&r.total, 1) - 1)\n}\n\nfunc (rt *Route) slot(n uint64) *Target {\n\treturn rt.wTargets[n%uint64(len(rt.wTargets))]\n}", Expect: ""},
 			{Name: "slot helper called without the emptiness guard", File: "route/picker.go", Old: "func rrPicker(r *Route) *Target {\n\tif len(r.wTargets) == 0 {\n\t\treturn nil\n\t}\n\tn := atomic.AddUint64(&r.total, 1) - 1\n\treturn r.wTargets[n%uint64(len(r.wTargets))]\n}", New: "func rrPicker(r *Route) *Target {\n\treturn r.slot(atomic.AddUint64(&r.total, 1) - 1)\n}\n\nfunc (rt *Route) slot(n uint64) *Target {\n\treturn rt.wTargets[n%uint64(len(rt.wTargets))]\n}", Expect: "C06.B2"},
+			{Name: "benign: a second, independent sync.Map of the cache is stored to outside the mutex", File: "route/glob_cache.go", Old: "func NewGlobCache(size int) *GlobCache {", New: "// SetHosts remembers the patterns that matched a request host (a memo next to the ring, safe on its own).\nfunc (c *GlobCache) SetHosts(host string, patterns []string) {\n\tif len(c.l) == 0 {\n\t\treturn\n\t}\n\tc.hosts.Store(host, patterns[:len(patterns):len(patterns)])\n}\n\nfunc (c *GlobCache) Hosts(host string) ([]string, bool) {\n\tv, ok := c.hosts.Load(host)\n\tif !ok {\n\t\treturn nil, false\n\t}\n\treturn v.([]string), true\n}\n\nfunc NewGlobCache(size int) *GlobCache {", More: []repl{{"\tm sync.Map\n", "\tm sync.Map\n\n\thosts sync.Map\n"}}, Expect: ""},
+			{Name: "independent second map present, pattern still entered into the ring's map before the lock", File: "route/glob_cache.go", Old: "\tc.mu.Lock()\n\tdefer c.mu.Unlock()\n", New: "\tc.m.Store(pattern, glbCompiled)\n\tc.hosts.Store(pattern, true)\n\tc.mu.Lock()\n\tdefer c.mu.Unlock()\n", More: []repl{{"\tm sync.Map\n", "\tm sync.Map\n\n\thosts sync.Map\n"}}, Expect: "C06.B1"},
 			{Name: "benign: RWMutex write lock", File: "route/glob_cache.go", Old: "mu sync.Mutex", New: "mu sync.RWMutex", Expect: ""},
 			{Name: "benign: explicit unlock instead of defer in picker-free code", File: "route/picker.go", Old: "n := atomic.AddUint64(&r.total, 1) - 1", New: "n := atomic.AddUint64(&r.total, 1)\n\tn--", Expect: ""},
 		},
@@ -85,7 +87,7 @@ func init() {
 }
 
 func runC06(c *Ctx) {
-	sa := newSharedAnalysis(c)
+	sa := c06sharedFor(c)
 	n := c06s1(sa, "C06.S1")
 	c.atLeast("C06.S1", "stores into cross-request structures reachable from serving roots", n, 3)
 	runS2(c, sa, "C06.S2")
@@ -806,7 +808,20 @@ func runGlobCacheB1(c *Ctx) {
 		}
 		return false
 	}
-	isMapCall := func(i ssa.Instruction, ms ...string) bool {
+	// ringMaps: the sync.Map fields of the cache whose contents must stay consistent with the ring (filled below). A
+	// further, independent sync.Map of the cache type (a memo of something else) is safe for concurrent use on its own
+	// and is none of B1's business.
+	ringMaps := map[string]bool{}
+	mapFieldOf := func(v ssa.Value) string {
+		switch x := v.(type) {
+		case *ssa.FieldAddr:
+			return typeKey(x.X.Type()) + "." + fieldName(x.X.Type(), x.Field)
+		case *ssa.Field:
+			return typeKey(x.X.Type()) + "." + fieldName(x.X.Type(), x.Field)
+		}
+		return ""
+	}
+	anyMapCall := func(i ssa.Instruction, ms ...string) bool {
 		cc := callCommon(i)
 		if cc == nil || len(cc.Args) == 0 || !onCache(cc.Args[0]) {
 			return false
@@ -818,6 +833,12 @@ func runGlobCacheB1(c *Ctx) {
 			}
 		}
 		return false
+	}
+	isMapCall := func(i ssa.Instruction, ms ...string) bool {
+		if !anyMapCall(i, ms...) {
+			return false
+		}
+		return len(ringMaps) == 0 || ringMaps[mapFieldOf(callCommon(i).Args[0])]
 	}
 	// ring slot address: &ring[idx] where ring is a load of a slice field of the cache
 	slotAddr := func(v ssa.Value) (*ssa.IndexAddr, bool) {
@@ -854,6 +875,37 @@ func runGlobCacheB1(c *Ctx) {
 		return nil, nil
 	}
 	underLock := func(i ssa.Instruction) bool { return c06lockedAtAll(c, i, true, 0) }
+
+	// which maps belong to the ring: a map from which a key read out of a ring slot is deleted (eviction), or into which
+	// a key is entered that is also written into a ring slot (insertion). When no map can be told apart this way every
+	// sync.Map of the cache is taken (the rule then demands more, never less).
+	var slotVals []ssa.Value
+	eachInstrOf(reg, func(_ *ssa.Function, i ssa.Instruction) {
+		if st, ok := i.(*ssa.Store); ok {
+			if _, ok := slotAddr(st.Addr); ok {
+				slotVals = append(slotVals, stripIface(st.Val))
+			}
+		}
+	})
+	eachInstrOf(reg, func(_ *ssa.Function, i ssa.Instruction) {
+		cc := callCommon(i)
+		if cc == nil || len(cc.Args) < 2 {
+			return
+		}
+		key := stripIface(cc.Args[1])
+		switch {
+		case anyMapCall(i, "Delete", "LoadAndDelete", "CompareAndDelete"):
+			if derives(key, func(x ssa.Value) bool { ld, _ := slotLoad(x); return ld != nil }) {
+				ringMaps[mapFieldOf(cc.Args[0])] = true
+			}
+		case anyMapCall(i, "Store", "LoadOrStore", "Swap", "CompareAndSwap"):
+			for _, sv := range slotVals {
+				if sv == key || (c06fnOf(sv) != c06fnOf(key) && c06path(sv) == c06path(key) && typeStr(sv.Type()) == typeStr(key.Type())) {
+					ringMaps[mapFieldOf(cc.Args[0])] = true
+				}
+			}
+		}
+	})
 
 	var mapWrites, mapDeletes []ssa.Instruction
 	var slotStores []*ssa.Store
